@@ -51,12 +51,12 @@ def run(res, tier, replay):
     n = 40 if tier == "quick" else 600
     wf = []; cases = []
     for i in range(n):
-        try: chm, exp, p = chmlib.rand_chm(rng, big=(i % 25 == 24))
+        try: chm, exp, p = chmlib.rand_chm(rng, big=(i % 25 == 24), far_reset=(i % 10 == 5))
         except ValueError: continue
         names = sorted(exp.keys(), key=chmfmt.sort_key)
         users = [nm for nm in names if not nm.startswith(b"::")]; nsys = len(names) - len(users)
         idxs = list(range(len(names)))
-        mode = i % 4
+        mode = 1 if i % 10 == 5 else i % 4
         if mode == 0: order = idxs[:40]
         elif mode == 1: order = idxs[::-1][:40]
         else:
